@@ -1,2 +1,42 @@
-(* C06 -- statement file; proofs in Sess/ *)
-From SV Require Import Sess.Model.
+(* C06 -- no complete protocol data unit is ever silently discarded. *)
+From Coq Require Import ZArith NArith List.
+From Coq.Strings Require Import Byte.
+From SV Require Import Base.Bytes Base.Py Asn1.Model Msg.Types Msg.Decode Sess.Model Sess.Frame.
+Import ListNotations.
+
+(* [frame_one] reads identifier and length octets only (X.690 8.1.2, 8.1.3): the independent framer.
+   [framed input n residue]: input = n complete units followed by residue, and residue is empty or
+   a genuinely incomplete unit. *)
+
+(* In every error-free receive call, from any open state: the number of messages returned equals the
+   number of complete units in (held-back octets ++ new data) and exactly an incomplete unit (or
+   nothing) is held back. *)
+Theorem C06_receive_accounts_for_every_complete_unit :
+  forall d s data s' ms, s_state s <> CLOSED -> receive d s data = (s', ORetMsgs ms) ->
+  framed (s_in s ++ data) (length ms) (s_in s').
+Proof. exact receive_accounts_for_every_unit. Qed.
+
+Theorem C06_framing_loses_no_octet :
+  forall r n rest, framed r n rest -> exists units, r = concat units ++ rest /\ length units = n.
+Proof. exact framed_concat. Qed.
+
+(* the reader asks for more data only when the framer finds the outer unit incomplete; a decoded
+   message consumed exactly one complete unit *)
+Theorem C06_need_more_iff_incomplete :
+  forall d r,
+  match unpack_message d r with
+  | Ok (_, r') => exists hl ln, frame_one r = FUnit hl ln /\ r' = drop (hl + ln) r /\ (2 <= hl)%N
+  | Raise NeedMore => frame_one r = FIncomplete
+  | Raise _ => True
+  end.
+Proof. exact unpack_message_frames. Qed.
+
+(* the original defect: a complete envelope whose diagnosticMessage overruns it is now an error *)
+Example C06_complete_but_overrunning :
+  frame_one [x30;x0e;x02;x01;x01;x61;x09;x0a;x01;x00;x04;x00;x04;x05;x61;x62] = FUnit 2 14 /\
+  unpack_message 10 [x30;x0e;x02;x01;x01;x61;x09;x0a;x01;x00;x04;x00;x04;x05;x61;x62] = Raise ValueErr.
+Proof. split; vm_compute; reflexivity. Qed.
+
+Print Assumptions C06_receive_accounts_for_every_complete_unit.
+Print Assumptions C06_framing_loses_no_octet.
+Print Assumptions C06_need_more_iff_incomplete.
